@@ -88,13 +88,16 @@ def gen_cases(rng, tier):
         yield c, t + ["big"]
 
 
-def huge_ignored_case(rng, kind):
+def huge_ignored_case(rng, kind, sized=False):
     """a record the stream parser must IGNORE (foreign request id, stale Params, earlier stream) whose content + padding exceeds
     65535 bytes, in the middle of the active stream; the padding bytes look like a record of the active stream"""
     rid = 1
     role = FILTER if kind == "earlier-stream" else RESPONDER
     fake = flat([record(STDIN, rid, list(b"SMUGGLED"), 0)])          # 16 bytes that must stay padding
     P, pad = rng.choice([(65535, 1), (65535, 17), (65400, 200), (65281, 255)])
+    if sized:
+        # round content lengths (multiples of 256 and their neighbours) with little or no padding
+        P, pad = rng.choice([255, 256, 256, 257, 512, 768, 1024, 4096, 65280]), rng.choice([0, 0, 0, 1, 8, 16])
     padding = (fake + [0] * pad)[:pad] if pad >= 16 else [0] * pad
     if kind == "foreign-id":
         huge = header(STDIN, 2, P, pad) + [rng.randrange(256) for _ in range(P)] + padding
@@ -114,7 +117,17 @@ def huge_ignored_case(rng, kind):
     ops = ([[5, DATA]] if kind == "earlier-stream" else [])
     for _ in range(len(wire) // max(8, B // 2) + 8):
         ops += [[0, 10 ** 6], [2, 10 ** 6], [4, 10 ** 6], [3]]
-    return "str_run " + " ".join(fmt_arg(x) for x in [[B], [1], wire] + ops), ["stream", "role%d" % role, "huge-ignored"]
+    if sized:
+        B = rng.choice([64, 256, 8192])
+        body = (fake * (P // len(fake) + 1))[:P]
+        wire = flat(recs) + huge[:8] + body + padding + flat(tail)
+        style = rng.choice(["drain", "small"])
+        if style == "small":
+            ops = ([[5, DATA]] if kind == "earlier-stream" else []) + [[rng.choice([0, 1]), rng.randrange(1, 40), 30][:rng.choice([2, 3])] for _ in range(40)]
+            ops = [o if len(o) == 3 or o[0] == 0 else [0, o[1]] for o in ops]
+            for _ in range(len(wire) // max(8, B // 2) + 8):
+                ops += [[0, 10 ** 6], [2, 10 ** 6], [4, 10 ** 6], [3]]
+    return "str_run " + " ".join(fmt_arg(x) for x in [[B], [1], wire] + ops), ["stream", "role%d" % role, "sized-ignored" if sized else "huge-ignored"]
 
 
 _gen_cases_base = gen_cases
@@ -179,14 +192,16 @@ def gen_cases(rng, tier):
     for kind in ("foreign-id", "stale-params", "earlier-stream"):
         for _ in range(1 if tier == "quick" else 8):
             yield huge_ignored_case(rng, kind)
+        for _ in range(12 if tier == "quick" else 500):
+            yield huge_ignored_case(rng, kind, sized=True)
 
 
 def nontrivial(line, tags):
-    return any(t in tags for t in ("mixed-dest", "junk", "small-buffer", "huge-ignored"))
+    return any(t in tags for t in ("mixed-dest", "junk", "small-buffer", "huge-ignored", "sized-ignored"))
 
 
 def min_classes(tier):
-    return {"leftover-then-large": 16, "mixed-dest": 300, "small-buffer": 200, "zero-dest": 100, "set-stream": 100, "big": 2, "huge-ignored": 3, "full-64k": 3, "role1": 100, "role2": 100, "role3": 100}
+    return {"leftover-then-large": 16, "sized-ignored": 36, "mixed-dest": 300, "small-buffer": 200, "zero-dest": 100, "set-stream": 100, "big": 2, "huge-ignored": 3, "full-64k": 3, "role1": 100, "role2": 100, "role3": 100}
 
 
 def oracle(line, impl_line):
